@@ -1,4 +1,4 @@
-(* C03 driver: the extracted whole-connection model (coq/Flow.v + FlowRun.v) on a `flow` case line; same
+(* C03 driver: the extracted whole-connection model (coq/Flow.v + FlowRun.v on the environment of FlowNlaRun.v) on a `flow` case line; same
    output as harness/src/flow.rs.  The interleaving with the server's replies (s<k>) is obtained from the model
    itself: the run on the script cut before reply k gives what the client has written when reply k is released. *)
 let prof () = match Sys.getenv_opt "VERIF_PROFILE" with Some "release" -> Release | _ -> Debug
@@ -59,11 +59,13 @@ let op_flow args = match args with
     let c = { f_pdu = k; f_user_first = (order = "u"); f_check_cert = (check = "1") } in
     let u = str upper in
     let up = fun (_ : n list) -> u in
-    let st = if hash <> "-" then ntlm_from_hash hmac_md5 up (str dom) (str user) (parse_bytes hash)
-             else ntlm_new md4 hmac_md5 up (str dom) (str user) (str pw) in
     let r = parse_bytes rnd in
-    let env = { ce_upper = up; ce_ntlm = st; ce_restricted = (ram = "1" || blank = "1");
-                ce_pubkey = (if pubkey = "-" then [] else parse_bytes pubkey); ce_nonce = take 8 r; ce_key = drop 8 r } in
+    (* the NLA leg (coq/FlowNla.v): blank_creds, password hash, the key of the certificate, the client's randomness;
+       the model (FlowNlaRun.nla_cssp_env) builds the NTLM state and the restricted flag from the configuration itself.
+       flow_impl on this environment IS FlowNla.flow_nla at the concrete functions (C03_nla_run.flow_impl_is_flow_nla) *)
+    let nla_p = { nl_blank = (blank = "1"); nl_hash = (if hash <> "-" then Some (parse_bytes hash) else None);
+                  nl_pubkey = (if pubkey = "-" then [] else parse_bytes pubkey); nl_nonce = take 8 r; nl_key = drop 8 r } in
+    let env = nla_cssp_env up c nla_p in
     let nr = nat_of_int (int_of_string nreads) in
     let run st = let (raw, post) = streams st in flow_impl p env c nr raw post in
     let nsends = List.length (List.filter (fun s -> s <> STls) steps) in
@@ -127,7 +129,34 @@ let op_refsrv args = match args with
       (String.concat ";" (List.map kind_str (expected_kinds srv uf)))
   | _ -> "bad-args"
 
+(* ---- the SPEC of the CredSSP / NTLM server (coq/RefCredssp.v, extracted) on the messages a client actually wrote:
+   refcssp <user> <domain> <nt hash> <upper(user)> <flags> <server challenge> <reserved> <tname len> <tname max> <tname off>
+           <tinfo max> <version> <payload before target info> <target info> <payload after> <public key> <msg,msg,..>
+   (names as UTF-8 hex).  Prints the server's replies and the state it ends in; gen/c03.py compares them byte for byte
+   with the python reference server (gen/credssp.py) that scripted the run of the real client. *)
+let state_str (st : cssp_state) : Stdlib.String.t = match st with
+  | CsStart -> "start"
+  | CsChallenged _ -> "challenged"
+  | CsAuthenticated (k, _) -> "authenticated:" ^ hex k
+  | CsDone (k, d, u, pw) -> Printf.sprintf "done:%s:%s:%s:%s" (hex k) (hex d) (hex u) (hex pw)
+  | CsRefused -> "refused"
+
+let op_refcssp args = match args with
+  | [user; dom; nthash; upper; flags; sc; reserved; tnlen; tnmax; tnoff; timax; version; pre; ti; post; pubkey; msgs] ->
+    let u = str upper in
+    let up = fun (_ : n list) -> u in
+    let chal = { c_flags = num flags; c_server_challenge = parse_bytes sc; c_reserved = parse_bytes reserved;
+                 c_tname_len = num tnlen; c_tname_max = num tnmax; c_tname_off = num tnoff; c_tinfo_max = num timax;
+                 c_version = parse_bytes version; c_pre = parse_bytes pre; c_target_info = parse_bytes ti; c_post = parse_bytes post } in
+    let srv = { cs_account = { a_user = str user; a_domain = str dom; a_nthash = parse_bytes nthash };
+                cs_challenge = chal; cs_pubkey = parse_bytes pubkey } in
+    let ms = if msgs = "-" then [] else List.map parse_bytes (String.split_on_char ',' msgs) in
+    let (rs, st) = cssp_serve md5 hmac_md5 up srv CsStart ms in
+    Printf.sprintf "ok r=%s st=%s" (if rs = [] then "-" else String.concat "," (List.map hex rs)) (state_str st)
+  | _ -> "bad-args"
+
 let () = main_loop (fun op args -> match op with
   | "flow" -> op_flow args
   | "refsrv" -> op_refsrv args
+  | "refcssp" -> op_refcssp args
   | _ -> "unknown-op:" ^ op)
